@@ -170,7 +170,7 @@ Definition write_field (env : enum_env) (t : fty) : outcome fieldw :=
              | Some p, Some KId62 => Ok (Some (LStrFkId62, p))
              | Some p, Some KUuid => Ok (Some (LStrFkUuid, p))
              | Some p, Some (KCustom _) => Ok (Some (LStrFkUnique, p))
-             | Some p, Some KInformal => Err "unknown key format"   (* no arm for informal in the list-rules switch *)
+             | Some p, Some KInformal => Ok (Some (LStrFkUnique, p))   (* since dc2b724; "unknown key format" before *)
              end)
         (fun lst =>
            Ok (FW KdString
